@@ -106,16 +106,16 @@ CLAIMED.update({
 
 # claims extended in the second seeding round (DESIGN 9.7)
 EXTRA_TEXT = {
- "C03": "Also decided: the writer's portRef emission (_output_port_ref_/_output_inner_pin_) names the position of exactly the pin that is on the net, for ports of 1 and 3 pins in every connection pattern.",
- "C04": "Also decided (CrossHair): (* *) attribute lists of up to three entries survive real reader -> real writer -> real reader.",
+ "C03": "Also decided on the writer alone (fixture eblif-bus, two symbolic connection patterns): equal written text implies equal pin->net-bit relations; one (net ...) per wire and one (portRef ...) per joined pin. Also decided: the writer's portRef emission (_output_port_ref_/_output_inner_pin_) names the position of exactly the pin that is on the net, for ports of 1 and 3 pins in every connection pattern.",
+ "C04": "Also decided on the writer alone (fixture eblif-bus, two symbolic connection patterns, port bits joined inside their module): equal written text implies equal pin->net-bit relations. Also decided (CrossHair): (* *) attribute lists of up to three entries survive real reader -> real writer -> real reader.",
  "C05": "Also decided: parse_design binds the top instance to the cell with the cellRef identifier in the library with the libraryRef identifier, independent of display names.",
- "C06": "Also decided: a two-piece concatenation {P1, P2} yields P1's bits MSB-first followed by P2's bits MSB-first.",
+ "C06": "Also decided: positional (connect_implicitly_mapped_ports) and named (parse_port_map_single) port maps join bit k of a 1-2 bit expression, counted from its low end, to port bit k. Also decided: a two-piece concatenation {P1, P2} yields P1's bits MSB-first followed by P2's bits MSB-first.",
  "C08": "Also decided: the WHOLE uniquify() -- real driver, _is_unique, _make_instance_unique, Definition.clone -- on containment-concrete netlists with symbolic instance->definition references (sharing below the top, with the outside, leaves): uniqueness of reachable hierarchical instances, unchanged elaborated tree and leaf types, untouched originals/outside, fresh names in the same library, well-formedness, idempotence, no exception.",
- "C09": "Also decided: the same kernel for a two-pin port whose bits are on distinct nets (each bit merged whatever happened for the one before).",
+ "C09": "Also decided: the WHOLE flatten() on pin-free hierarchies with symbolic instance->definition references (exactly the leaf occurrences remain in the top, named by their path; nets of flattened cells moved to the top; outside untouched; well-formed; no exception). Also decided: the same kernel for a two-pin port whose bits are on distinct nets (each bit merged whatever happened for the one before).",
  "C11": "Also decided: the hierarchical-wire and hierarchical-cable name maps contain exactly one entry per occurrence below the top (wire-only cells included), named by path, cable and bus index, on three fixtures with symbolic naming flags.",
  "C12": "Quick tier fixtures: shared-sub and wire-only (a cell with nets but no children one level down). Also decided on the same fixtures: get_hcables(start, ALL) returns exactly the cables of the connected net; get_hpins(hierarchical wire) returns exactly the pins attached to it; get_hwires(hierarchical pin, INSIDE/OUTSIDE) returns exactly the wire on that side.",
  "C13": "Also decided: brackets in wildcard patterns are literal; the name maps behind get_hwires/get_hcables (see C11); E1 on the flat queries get_instances/get_cables/get_ports/get_definitions from an arbitrary well-formed state: result == unfiltered result restricted to the elements whose value matches either of two symbolic patterns (independent matcher), unfiltered result == the named children, no element twice.",
- "C18": "Also decided: connect_pin_to_wire joins a pin to the named net of the model being read, across two consecutive models (parser built by its real __init__).",
+ "C18": "Also decided on the writer alone (fixture eblif-bus): equal written text implies equal instance-pin->net-bit relations. Also decided: connect_pin_to_wire joins a pin to the named net of the model being read, across two consecutive models (parser built by its real __init__).",
  "C20": "Also decided on a shape with two instances of the two-pin cell (a net moved to the same pin of the other instance is rejected); the comparer is built by its real __init__.",
  "C14": "Instance.reference is additionally decided on shape-concrete universes with two ports per definition (equal, growing and shrinking second port).",
 }
